@@ -106,6 +106,71 @@ PROPS["C10"] = dict(
     assumptions=[],
 )
 
+PROPS["C03"] = dict(
+    title="Secured messages are accepted only if authentic for that session and direction",
+    scope="Header codecs (PlainHdr/ProtoHdr encode/decode round trip for every flag combination and field value; decoder totality on arbitrary bytes, "
+          "bounded by header length), nonce layout sec_flags|counter|node id and its injectivity, and - with the AEAD primitive replaced by a recording "
+          "mock under a stated ideal contract - what key, nonce and AAD the real encrypt/decrypt paths hand to the primitive: session dec/enc key, "
+          "nonce from the received/sent flags+counter and the session's peer/local node id, AAD = the plain header bytes bit for bit; authentication "
+          "failure => Err with the session unchanged; Session::is_for_rx equals the reference predicate.",
+    verus=[],
+    functions=[],
+    trusted=["AEAD mock contract: decrypt(k,n,aad,ct|tag) is Ok only for the output of encrypt under the same key, nonce and AAD (AES-CCM itself is out of reach)",
+             "RxCtrState is read through a layout-checked mirror struct"],
+    out_of_reach=["AES-CCM", "group-key trial-decryption loop", "table-level Sessions::get_for_rx and TransportRunner::decode_packet (did not close; per-session frame proved instead)"],
+    assumptions=[],
+)
+
+PROPS["C17"] = dict(
+    title="Headers, onboarding payloads and discovery records decode what was encoded",
+    scope="decode(encode(x)) == x and decoder totality for WriteBuf/ParseBuf primitives, SC StatusReport, base-38 (1- and 2-byte groups, encode_bits, all "
+          "group decoders over every byte string), manual pairing code (ALL 10^11 eleven-digit strings: refused iff wrong Verhoeff digit / leading digit > 7 / "
+          "inconsistent VID-PID flag / out-of-range digit group; spec-encoder round trip), QR bit packing and BitReader, BDX headers, BLE advertisement payloads.",
+    verus=[],
+    functions=[],
+    trusted=["the verhoeff crate is kept as real code; its oracle is computed from the D5 definition"],
+    out_of_reach=["QrPayload::parse on whole texts, 21-digit manual codes, compute_pairing_code (core::fmt), 3-byte base-38 groups through encode(&[u8]) - did not close",
+                  "mDNS answer parsing, Matter<->X.509 conversion (unbounded, ASN.1)", "message/protocol headers are under C03, BTP headers under C18"],
+    assumptions=[],
+)
+
+PROPS["C19"] = dict(
+    title="A certificate chain is accepted exactly when it is valid under the Matter rules",
+    scope="Decision logic of CertVerifier::{verify_usage, add_cert, finalise} and whole chains (with/without ICAC) against an oracle from the statement, "
+          "for EVERY combination of parsed field values and every outcome of the primitives: certificates are parsed-form records behind stubbed "
+          "accessors, signature verification is a mock. Result.is_ok() <=> oracle in both directions.",
+    verus=[],
+    functions=[],
+    trusted=["certificate accessors (TLV field extraction) stubbed by arbitrary values - reader totality is C16", "ECDSA / DER / CertRef::encode (the signed TBS) assumed",
+             "UtcTime seconds conversion assumed (same variant, arbitrary seconds)"],
+    out_of_reach=["AddNOC/UpdateNOC specific gates inside FailSafe (public key == CSR key; fabric must not exist)", "soundness of ECDSA and of the Matter->X.509 re-encoding"],
+    assumptions=[],
+)
+
+PROPS["C01"] = dict(
+    title="CASE admits only holders of a valid NOC of the addressed fabric (gates only)",
+    scope="Synchronous gates only: Case::validate_certs (Ok => NOC and ICAC fabric id are this fabric's and every chain step verified up to THIS fabric's root), "
+          "Fabric::is_dest_id (Ok <=> HMAC == target) and Fabrics::get_by_dest_id (first matching fabric or none).",
+    verus=[],
+    functions=[],
+    trusted=["crypto primitives are nondeterministic mocks", "certificate accessors stubbed (C19)"],
+    out_of_reach=["Sigma1/2/3/Resume flows, transcript hashing, key schedule, tamper => no session, both ends same keys (async + cryptographic protocol properties)",
+                  "validate_peer_tbs_signature (TLV writer byte loops did not close)"],
+    assumptions=[],
+)
+
+PROPS["C02"] = dict(
+    title="PASE admits only a peer that knows the passcode, only while a window is open (gates only)",
+    scope="Synchronous gates only: Pase window open/close/timeout/failure accounting (revoked iff the twentieth failure; always clears the session marker; Busy when a "
+          "window exists; InvalidCommand outside 180-900 s), commissionable mDNS record iff a window exists, Spake2P::setup_verifier refuses an invalid share "
+          "before touching ke/ca/cb, Spake2P::verify Ok iff cA equal.",
+    verus=[],
+    functions=[],
+    trusted=["crypto primitives are mocks", "Instant::now stubbed"],
+    out_of_reach=["that a session appears only through handle_pasepake3 after verify; window not re-checked at Pake3; SPAKE2+ soundness; that every failure path calls record_pake_failure (async responder)"],
+    assumptions=[],
+)
+
 
 # ---- harness lists come from lib/harness_index.json (tools/gen_index.py scans kani/*.rs) and the named
 # ---- obligations each harness must discharge from lib/expected.json (./verif expect-update)
